@@ -451,6 +451,57 @@ func c02InputTable(c *Ctx) {
 				_, isC := v.(*ssa.Const)
 				return !isC
 			})
+			// second accepted shape: no order table and no switch — one `if v, ok := asMap["f"]; ok { … }` block per field, in
+			// sequence; the order is the dominance order of the comma-ok lookups whose value is used
+			stopBlocks := map[*ssa.BasicBlock]bool{}
+			if len(table) == 0 && len(cases) == 0 {
+				type lk struct {
+					key string
+					in  *ssa.Lookup
+					blk *ssa.BasicBlock
+				}
+				var lks []lk
+				for _, b := range fn.Blocks {
+					for _, in := range b.Instrs {
+						l, ok := in.(*ssa.Lookup)
+						if !ok || !l.CommaOk {
+							continue
+						}
+						k, isC := an.ConstString(l.Index)
+						if !isC {
+							continue
+						}
+						valueUsed := false
+						var okIf *ssa.If
+						for _, r := range an.Referrers(l) {
+							ex, isEx := r.(*ssa.Extract)
+							if !isEx {
+								continue
+							}
+							for _, r2 := range an.Referrers(ex) {
+								if _, isDbg := r2.(*ssa.DebugRef); isDbg {
+									continue
+								}
+								if ex.Index == 0 {
+									valueUsed = true
+								} else if iff, isIf := r2.(*ssa.If); isIf {
+									okIf = iff
+								}
+							}
+						}
+						if valueUsed && okIf != nil {
+							lks = append(lks, lk{k, l, okIf.Block().Succs[0]})
+						}
+					}
+				}
+				sort.SliceStable(lks, func(i, j int) bool { return an.Before(lks[i].in, lks[j].in) })
+				cases = map[string]*ssa.BasicBlock{}
+				for _, l := range lks {
+					table = append(table, l.key)
+					cases[l.key] = l.blk
+					stopBlocks[l.in.Block()] = true
+				}
+			}
 			var caseNames []string
 			for k := range cases {
 				caseNames = append(caseNames, k)
@@ -520,10 +571,10 @@ func c02InputTable(c *Ctx) {
 			}
 			// every case stores into the result
 			for k, blk := range cases {
-				region := an.Reach(blk, func(b *ssa.BasicBlock) bool { return b != blk && (isCaseHead(b, cases) || isLoopHeader(b)) })
+				region := an.Reach(blk, func(b *ssa.BasicBlock) bool { return b != blk && (isCaseHead(b, cases) || isLoopHeader(b) || stopBlocks[b]) })
 				stores := false
 				for b := range region {
-					if b != blk && (isCaseHead(b, cases) || isLoopHeader(b)) {
+					if b != blk && (isCaseHead(b, cases) || isLoopHeader(b) || stopBlocks[b]) {
 						continue
 					}
 					for _, in := range b.Instrs {
